@@ -1,6 +1,6 @@
 (* Lemmas in exactly the shape Props/C09.v and Props/C08.v state them. *)
 From LP Require Import Prelude.Py Prelude.PyLemmas Gen.RelImport Gen.Select
-     Ast.AstLite Ast.AuxStr Ast.Select Ast.SelectGen Ast.Transform Ast.TransformFacts.
+     Ast.AstLite Ast.AuxStr Ast.Select Ast.SelectGen Ast.Transform Ast.TransformFacts Ast.Behaviour.
 
 (* ---- C09 ------------------------------------------------------------------------------- *)
 Lemma whole_script c body t' :
@@ -88,4 +88,104 @@ Lemma c09_nonvacuous :
 Proof.
   split; [reflexivity|]. split; [reflexivity|]. split; [|split; vm_compute; reflexivity].
   vm_compute. constructor; [intros []|constructor].
+Qed.
+
+(* ---- C08 ------------------------------------------------------------------------------- *)
+Lemma erasure c body t' :
+  transform c body = Ok t' ->
+  erase t' = erase (pre c body) /\ (clean (pre c body) = true -> erase t' = pre c body).
+Proof.
+  intros H. split; [apply (erase_transform c body t' H)|apply (erase_transform_clean c body t' H)].
+Qed.
+
+Lemma pre_script c body : c_module c = None -> pre c body = body.
+Proof. unfold pre. intros ->. reflexivity. Qed.
+
+Lemma pre_module c m body : c_module c = Some m -> pre c body = absolutize m body.
+Proof. unfold pre. intros ->. reflexivity. Qed.
+
+Lemma decorator_innermost_once c body t' :
+  transform c body = Ok t' ->
+  funcs t' = (if c_full c then map deco_once (funcs (pre c body)) else funcs (pre c body))
+  /\ (forall f, fh_decos (deco_once f)
+                = if has_profile (fh_decos f) then fh_decos f else fh_decos f ++ [DName profile_name])
+  /\ (c_full c = true -> clean (pre c body) = true -> forall f, In f (funcs t') -> once_innermost f = true).
+Proof.
+  intros H. split; [apply (funcs_transform c body t' H)|]. split; [intros f; reflexivity|].
+  intros Hf Hc. apply (whole_script_once_innermost c body t' Hf Hc H).
+Qed.
+
+Lemma rewrite_defined c body :
+  (no_bare_relative (pre c body) = true -> exists t', transform c body = Ok t')
+  /\ (no_bare_relative (pre c body) = false -> transform c body = Err TypeError).
+Proof. split; [apply transform_total|apply transform_bare_relative]. Qed.
+
+(* "every inserted statement carries the line of the import it follows" *)
+Definition located_statement : Prop :=
+  forall c body t', transform c body = Ok t' -> located body = true -> located t' = true.
+
+Definition loc_cfg : cfg := Build_cfg true true None [].
+(* def f():            line 1
+       import os       line 2   -> the inserted call gets line 1 (the def) *)
+Definition loc_body_fn : list stmt := [FuncDef false "f" [] [Import [("os", None)] 2] 1].
+(* x = 1               line 1
+   import pkg          line 2   -> the inserted call gets line 1 (module level) *)
+Definition loc_body_mod : list stmt := [Other 0 1; Import [("pkg", None)] 2].
+
+Lemma located_witnesses :
+  transform loc_cfg loc_body_fn
+  = Ok [FuncDef false "f" [DName "profile"] [Import [("os", None)] 2; ProfCall "os" (Some 1)] 1]
+  /\ transform (Build_cfg false false None ["pkg"]) loc_body_mod
+     = Ok [Other 0 1; Import [("pkg", None)] 2; ProfCall "pkg" (Some 1)]
+  /\ located loc_body_fn = true /\ located loc_body_mod = true.
+Proof. repeat split; vm_compute; reflexivity. Qed.
+
+Lemma located_refuted : ~ located_statement.
+Proof.
+  intros H. specialize (H loc_cfg loc_body_fn _ (proj1 located_witnesses) eq_refl). vm_compute in H. discriminate.
+Qed.
+
+(* "a valid placement of `from __future__ import` stays valid" *)
+Definition future_statement : Prop :=
+  forall c body t', transform c body = Ok t' -> future_ok body = true -> future_ok t' = true.
+
+Definition fut_body : list stmt :=
+  [ImportFrom (Some "__future__") [("annotations", None)] 0 1;
+   ImportFrom (Some "__future__") [("division", None)] 0 2].
+
+Lemma future_refuted : ~ future_statement.
+Proof.
+  intros H.
+  assert (E : transform loc_cfg fut_body
+              = Ok [ImportFrom (Some "__future__") [("annotations", None)] 0 1; ProfCall "annotations" (Some 1);
+                    ImportFrom (Some "__future__") [("division", None)] 0 2; ProfCall "division" (Some 1)])
+    by (vm_compute; reflexivity).
+  specialize (H loc_cfg fut_body _ E eq_refl). vm_compute in H. discriminate.
+Qed.
+
+(* "no registration call is made for `*`" *)
+Definition star_statement : Prop :=
+  forall c body t', transform c body = Ok t' -> star_free body = true -> star_free t' = true.
+
+Lemma star_refuted :
+  ~ star_statement
+  /\ transform loc_cfg [ImportFrom (Some "os") [("*", None)] 0 1]
+     = Ok [ImportFrom (Some "os") [("*", None)] 0 1; ProfCall "*" (Some 1)]
+  /\ transform (Build_cfg false false None ["pkg"]) [ImportFrom (Some "pkg") [("*", None)] 0 1]
+     = Ok [ImportFrom (Some "pkg") [("*", None)] 0 1; ProfCall "*" (Some 1)].
+Proof.
+  split; [|split; vm_compute; reflexivity].
+  intros H.
+  assert (E : transform loc_cfg [ImportFrom (Some "os") [("*", None)] 0 1]
+              = Ok [ImportFrom (Some "os") [("*", None)] 0 1; ProfCall "*" (Some 1)]) by (vm_compute; reflexivity).
+  specialize (H loc_cfg _ _ E eq_refl). vm_compute in H. discriminate.
+Qed.
+
+Lemma c08_nonvacuous :
+  (forall c body t', transform c body = Ok t' -> snd (toy_exec t' []) = snd (toy_exec (pre c body) []))
+  /\ clean nv_body = true
+  /\ (exists t', transform nv_cfg nv_body = Ok t' /\ erase t' = nv_body /\ lines t' = [1; 2; 3; 4; 4; 5; 6; 7; 8; 9]).
+Proof.
+  split; [exact behaviour_nonvacuous|]. split; [reflexivity|].
+  destruct c09_nonvacuous as [_ [_ [_ [_ E]]]]. eexists. split; [exact E|]. split; vm_compute; reflexivity.
 Qed.
